@@ -30,6 +30,7 @@ fn fuzz_opts() -> GraphOpts {
         absolute: true,
         decoys: true,
         mark_all: false,
+        sized: true,
     }
 }
 
